@@ -488,6 +488,66 @@ func c13CheckRead(c c13R, s *pbt.Session) error {
 	return nil
 }
 
+// de-armoring alone (no decryption layer above that could mask the armor
+// reader's own state)
+type c13A struct {
+	Len      int   `json:"len"`
+	At       int   `json:"at"`
+	WithData bool  `json:"withData"`
+	Once     bool  `json:"once"`
+	Pieces   []int `json:"pieces"`
+	BufSize  int   `json:"bufSize"`
+}
+
+func c13CheckDearmor(c c13A, st *stats.Run) error {
+	data := hx.PRG(uint64(c.Len), c.Len)
+	text := []byte(refage.Armor(data))
+	fr := &hx.FaultReader{Data: text, At: c.At, WithData: c.WithData, Once: c.Once, Pieces: c.Pieces}
+	r := armor.NewReader(fr)
+	bufSize := c.BufSize
+	if bufSize <= 0 {
+		bufSize = 100
+	}
+	buf := make([]byte, bufSize)
+	var got []byte
+	failed := false
+	var firstErr error
+	for i := 0; i < 100000; i++ {
+		n, err := r.Read(buf)
+		if failed {
+			if n != 0 || err == nil || err == io.EOF {
+				return pbt.Failf("C13/error-not-sticky", "de-armoring: the source failed at offset %d of %d (once=%v); Read reported %v, and a later Read returned (%d, %v)", c.At, len(text), c.Once, firstErr, n, err)
+			}
+			if i > 100000-2 {
+				break
+			}
+			failed = true
+			if n == 0 && i%3 == 2 {
+				break
+			}
+			continue
+		}
+		got = append(got, buf[:n]...)
+		if len(got) > len(data) || !bytes.Equal(got, data[:len(got)]) {
+			return pbt.Failf("C13/released-not-prefix", "de-armoring released bytes that are not a prefix of the armored data (fault at %d, once=%v)", c.At, c.Once)
+		}
+		if err == io.EOF {
+			if fr.Hit && !c.Once {
+				return pbt.Failf("C13/read-fault-swallowed", "de-armoring ended cleanly although the source failed permanently at offset %d of %d", c.At, len(text))
+			}
+			if !bytes.Equal(got, data) {
+				return pbt.Failf("C13/read-fault-swallowed", "de-armoring ended cleanly after %d of %d bytes (source fault at %d, once=%v)", len(got), len(data), c.At, c.Once)
+			}
+			break
+		}
+		if err != nil {
+			failed, firstErr = true, err
+		}
+	}
+	st.Case(fr.Hit, stats.HashJSON(c), "a:dearmor", fmt.Sprintf("a:once=%v", c.Once), fmt.Sprintf("a:withData=%v", c.WithData), fmt.Sprintf("a:fault-hit=%v", fr.Hit))
+	return nil
+}
+
 func TestC13(t *testing.T) {
 	s := pbt.Start(t, "C13")
 	defer s.Finish()
@@ -522,6 +582,26 @@ func TestC13(t *testing.T) {
 		l := genPlainLen(t, 3)
 		return c13W{PlainLen: l, Recs: c05GenRecs(t), Segs: genSegs(t, l), Armor: rapid.Bool().Draw(t, "armor"), KeepGoing: rapid.Bool().Draw(t, "keepGoing"), Call: -1, Byte: -1, Enumerate: true}
 	}, wr)
+
+	dearmor := func(c c13A) error { return c13CheckDearmor(c, s.St) }
+	pbt.Regress(s, "dearmor-faults", dearmor)
+	pbt.Each(s, "dearmor-faults", func(yield func(c13A)) {
+		n := 0
+		for _, l := range []int{0, 1, 47, 48, 49, 100, 300} {
+			tl := len(refage.Armor(make([]byte, l)))
+			for at := 0; at <= tl; at++ {
+				for mode := 0; mode < 3; mode++ {
+					for _, pieces := range [][]int{nil, {1}, {64}, {65}} {
+						if s.Mine(n) {
+							yield(c13A{Len: l, At: at, WithData: mode == 1, Once: mode == 2, Pieces: pieces, BufSize: []int{100, 1, 48}[at%3]})
+						}
+						n++
+					}
+				}
+			}
+		}
+		s.St.Exhaust("de-armoring alone: 7 lengths x every source offset x {permanent fault, fault with data, one-shot fault} x 4 delivery piece sizes", int64(n))
+	}, dearmor)
 
 	pbt.Each(s, "read-faults", func(yield func(c13R)) {
 		x := []hx.RecSpec{{Kind: "x25519", Idx: 0}}
